@@ -25,7 +25,7 @@ func (*c01) Rule() string {
 
 func (k *c01) Setup(c *core.Ctx) (int, error) {
 	k.combos = c.N(12, 30)
-	return c.N(160, 2500), nil
+	return c.N(800, 6000), nil
 }
 
 func (k *c01) RunCase(c *core.Ctx, i int) {
